@@ -14,7 +14,8 @@
 //!   valid <hex>                            prost decode of a payload (canonical re-encoding)
 //!   stream <max> <hex> <sizes> <mode>      read_network_message loop over a fragmenting reader
 //!   sreader <max> <hex> <sizes> <mode>     the real SessionReader actor over the same reader
-//!   live <max> <close|hold> <hex>          a live NodeServer with an authenticated link to a second node
+//!   live <max> <close|hold|dropfirst> <hex> [mem|tcp] [server|client] [sizes]
+//!                                          a live NodeServer with an authenticated link to a second node
 //!                                          and two raw inbound sessions; <hex> is written into one of them
 //! stdout: one Coq-syntax term per case.
 use std::alloc::{GlobalAlloc, Layout, System};
@@ -308,9 +309,12 @@ enum HMsg {
     #[rpc]
     CallSt { x: u8, reply: RpcReplyPort<u32>, y: f32 },
     EmptySt {},
+    Many(u8, i64, String, Vec<u16>, bool, ()),
+    #[rpc]
+    CallMany { a: String, b: Vec<u8>, c: char, reply: RpcReplyPort<Vec<i32>> },
 }
 
-const FIELD_TYS: [&[&str]; 13] = [
+const FIELD_TYS: [&[&str]; 15] = [
     &[],
     &["u32", "str"],
     &["i16", "vu64", "bool"],
@@ -324,6 +328,8 @@ const FIELD_TYS: [&[&str]; 13] = [
     &[],
     &["u8", "f32"],
     &[],
+    &["u8", "i64", "str", "vu16", "bool", "unit"],
+    &["str", "vu8", "char"],
 ];
 
 fn view(m: &HMsg) -> (usize, Vec<V>) {
@@ -341,12 +347,19 @@ fn view(m: &HMsg) -> (usize, Vec<V>) {
         HMsg::CallOnly(_) => (10, vec![]),
         HMsg::CallSt { x, reply: _, y } => (11, vec![x.to_v(), y.to_v()]),
         HMsg::EmptySt {} => (12, vec![]),
+        HMsg::Many(a, b, c, d, e, f) => (13, vec![a.to_v(), b.to_v(), c.to_v(), d.to_v(), e.to_v(), f.to_v()]),
+        HMsg::CallMany { a, b, c, reply: _ } => (14, vec![a.to_v(), b.to_v(), c.to_v()]),
     }
 }
 
 fn port<T: Send + 'static>() -> RpcReplyPort<T> {
     let (tx, _rx) = ractor::concurrency::oneshot::<T>();
     tx.into()
+}
+
+fn port_t<T: Send + 'static>() -> RpcReplyPort<T> {
+    let (tx, _rx) = ractor::concurrency::oneshot::<T>();
+    (tx, Duration::from_secs(30)).into()
 }
 
 fn build(idx: usize, v: &[V]) -> HMsg {
@@ -364,6 +377,15 @@ fn build(idx: usize, v: &[V]) -> HMsg {
         10 => HMsg::CallOnly(port()),
         11 => HMsg::CallSt { x: Conv::from_v(&v[0]), reply: port(), y: Conv::from_v(&v[1]) },
         12 => HMsg::EmptySt {},
+        13 => HMsg::Many(
+            Conv::from_v(&v[0]),
+            Conv::from_v(&v[1]),
+            Conv::from_v(&v[2]),
+            Conv::from_v(&v[3]),
+            Conv::from_v(&v[4]),
+            Conv::from_v(&v[5]),
+        ),
+        14 => HMsg::CallMany { a: Conv::from_v(&v[0]), b: Conv::from_v(&v[1]), c: Conv::from_v(&v[2]), reply: port() },
         _ => panic!("variant index"),
     }
 }
@@ -388,6 +410,7 @@ fn smsg(kind: &str, tag: &str, args: &str, meta: &str) -> SerializedMessage {
     match kind {
         "cast" => SerializedMessage::Cast { variant, args: unhex(args), metadata },
         "call" => SerializedMessage::Call { variant, args: unhex(args), reply: port(), metadata },
+        "callt" => SerializedMessage::Call { variant, args: unhex(args), reply: port_t(), metadata },
         "reply" => SerializedMessage::CallReply(7, unhex(args)),
         other => panic!("kind {other}"),
     }
@@ -430,6 +453,269 @@ fn clone_smsg(m: &SerializedMessage) -> SerializedMessage {
         }
         SerializedMessage::CallReply(a, b) => SerializedMessage::CallReply(*a, b.clone()),
     }
+}
+
+// ---------------------------------------------------------------------------------------
+// the encode entry point the cluster really uses: Message::box_message for a remote pid,
+// Message::from_boxed on the receiving side
+
+fn enum_box_rt(idx: usize, vals: &[V]) -> String {
+    let remote = ractor::ActorId::Remote { node_id: 7, pid: 9 };
+    let boxed = match quiet(|| build(idx, vals).box_message(&remote)) {
+        Ok(Ok(b)) => b,
+        Ok(Err(_)) => return "(None, None)".to_string(),
+        Err(()) => return "(None, PANIC)".to_string(),
+    };
+    let shown = match boxed.serialized_msg.as_ref() {
+        Some(s) => format!("(Some ({}))", show_smsg(s)),
+        None => "None".to_string(),
+    };
+    let back = match quiet(|| HMsg::from_boxed(boxed)) {
+        Ok(Ok(v)) => {
+            let (i, vals) = view(&v);
+            format!("Some {}", show_view(i, &vals))
+        }
+        Ok(Err(_)) => "None".to_string(),
+        Err(()) => "PANIC".to_string(),
+    };
+    // a local pid boxes without serializing and unboxes to the same value
+    let local = ractor::ActorId::Local(3);
+    let same = match build(idx, vals).box_message(&local) {
+        Ok(b) => b.serialized_msg.is_none() && matches!(HMsg::from_boxed(b), Ok(ref v) if view(v) == (idx, vals.to_vec())),
+        Err(_) => false,
+    };
+    if !same {
+        return format!("({shown}, LOCAL_BOX_DIFFERS)");
+    }
+    format!("({shown}, {back})")
+}
+
+// primitive message types: the blanket Message impl of every BytesConvertable type
+
+fn prim_de<T: Conv + Message>(m: SerializedMessage) -> String {
+    match quiet(|| <T as Message>::deserialize(m)) {
+        Ok(Ok(v)) => format!("POk ({})", show(&v.to_v())),
+        Ok(Err(_)) => "PErr".to_string(),
+        Err(()) => "PPanic".to_string(),
+    }
+}
+
+fn prim_rt<T: Conv + Message>(s: &str) -> String {
+    let v = T::parse(s);
+    if !<T as Message>::serializable() {
+        return "(NOT_SERIALIZABLE, PErr)".to_string();
+    }
+    let remote = ractor::ActorId::Remote { node_id: 7, pid: 9 };
+    let ser = match quiet(|| T::from_v(&v).box_message(&remote)) {
+        Ok(Ok(mut b)) => match b.serialized_msg.take() {
+            Some(s) => s,
+            None => return "(NOT_SERIALIZED, PErr)".to_string(),
+        },
+        Ok(Err(_)) => return "(SER_ERR, PErr)".to_string(),
+        Err(()) => return "(SER_PANIC, PErr)".to_string(),
+    };
+    format!("({}, {})", show_smsg(&ser), prim_de::<T>(clone_smsg(&ser)))
+}
+
+macro_rules! with_prim {
+    ($name:expr, $T:ident => $body:expr) => {
+        match $name {
+            "u8" => { type $T = u8; $body }
+            "u32" => { type $T = u32; $body }
+            "i64" => { type $T = i64; $body }
+            "u128" => { type $T = u128; $body }
+            "f64" => { type $T = f64; $body }
+            "bool" => { type $T = bool; $body }
+            "char" => { type $T = char; $body }
+            "str" => { type $T = String; $body }
+            "unit" => { type $T = (); $body }
+            "vu8" => { type $T = Vec<u8>; $body }
+            "vi16" => { type $T = Vec<i16>; $body }
+            "vchar" => { type $T = Vec<char>; $body }
+            other => panic!("unknown primitive message type {other}"),
+        }
+    };
+}
+
+// a message type that is not network serializable: the trait's defaults
+#[derive(ractor_cluster::RactorMessage)]
+#[allow(dead_code)]
+enum Plain {
+    A,
+    B(u32),
+}
+
+fn plain_probe(m: SerializedMessage) -> String {
+    let remote = ractor::ActorId::Remote { node_id: 7, pid: 9 };
+    let not_ser = !Plain::serializable();
+    let ser_err = matches!(quiet(|| Plain::A.serialize()), Ok(Err(_)));
+    let box_err = matches!(quiet(|| Plain::B(1).box_message(&remote)), Ok(Err(_)));
+    let de_err = matches!(quiet(|| Plain::deserialize(m)), Ok(Err(_)));
+    format!("({}, {}, {}, {})", coq_bool(not_ser), coq_bool(ser_err), coq_bool(box_err), coq_bool(de_err))
+}
+
+// a user message type whose serialize misbehaves (returns a call reply)
+struct Weird;
+impl Message for Weird {
+    fn serializable() -> bool {
+        true
+    }
+    fn serialize(self) -> Result<SerializedMessage, ractor::message::BoxedDowncastErr> {
+        Ok(SerializedMessage::CallReply(1, vec![1, 2, 3]))
+    }
+}
+
+// ---------------------------------------------------------------------------------------
+// reply bridges generated for #[rpc] variants: typed reply -> bytes -> typed reply
+
+fn reply_ty(idx: usize) -> &'static str {
+    match idx {
+        7 => "u8",
+        8 => "str",
+        9 => "vu8",
+        10 => "unit",
+        11 => "u32",
+        14 => "vi32",
+        _ => panic!("variant {idx} is not an rpc"),
+    }
+}
+
+fn mk_port<R: Send + 'static>(timeout: bool) -> (RpcReplyPort<R>, ractor::concurrency::OneshotReceiver<R>) {
+    let (tx, rx) = ractor::concurrency::oneshot::<R>();
+    if timeout {
+        ((tx, Duration::from_secs(30)).into(), rx)
+    } else {
+        (tx.into(), rx)
+    }
+}
+
+async fn recv_now<R>(rx: &mut ractor::concurrency::OneshotReceiver<R>) -> Result<Option<R>, ()> {
+    for _ in 0..20 {
+        match rx.try_recv() {
+            Ok(v) => return Ok(Some(v)),
+            Err(tokio::sync::oneshot::error::TryRecvError::Closed) => return Ok(None),
+            Err(tokio::sync::oneshot::error::TryRecvError::Empty) => settle().await,
+        }
+    }
+    Err(())
+}
+
+/// `mk` builds the call variant around a typed port, `take` gets the typed port back out of the
+/// deserialized message. `input`: Ok(value text) = full round trip of a reply value;
+/// Err(bytes) = these raw bytes arrive as the reply on the calling side.
+async fn reply_flow<R: Conv + Send + 'static>(
+    mk: impl FnOnce(RpcReplyPort<R>) -> HMsg,
+    take: impl FnOnce(HMsg) -> Option<RpcReplyPort<R>>,
+    timeout: bool,
+    input: Result<&str, Vec<u8>>,
+) -> String {
+    let (typed, mut typed_rx) = mk_port::<R>(timeout);
+    let ser = match quiet(|| mk(typed).serialize()) {
+        Ok(Ok(s)) => s,
+        _ => return "(SER_FAILED, None)".to_string(),
+    };
+    let SerializedMessage::Call { variant, args, reply: caller_side, metadata } = ser else {
+        return "(NOT_A_CALL, None)".to_string();
+    };
+    let wire = match input {
+        Err(raw) => raw,
+        Ok(text) => {
+            let value = R::from_v(&R::parse(text));
+            let (bin, mut bin_rx) = mk_port::<Vec<u8>>(timeout);
+            let de = quiet(|| HMsg::deserialize(SerializedMessage::Call { variant, args, reply: bin, metadata }));
+            let Ok(Ok(msg)) = de else { return "(DESER_FAILED, None)".to_string() };
+            let Some(handler_side) = take(msg) else { return "(WRONG_VARIANT, None)".to_string() };
+            if handler_side.send(value).is_err() {
+                return "(HANDLER_SEND_FAILED, None)".to_string();
+            }
+            match recv_now(&mut bin_rx).await {
+                Ok(Some(b)) => b,
+                Ok(None) => return "(REPLY_DROPPED, None)".to_string(),
+                Err(()) => return "(REPLY_PENDING, None)".to_string(),
+            }
+        }
+    };
+    let shown = bytes(&wire);
+    if caller_side.send(wire).is_err() {
+        return format!("({shown}, CALLER_PORT_CLOSED)");
+    }
+    match recv_now(&mut typed_rx).await {
+        Ok(Some(v)) => format!("({shown}, Some ({}))", show(&v.to_v())),
+        Ok(None) => format!("({shown}, None)"),
+        Err(()) => format!("({shown}, PENDING)"),
+    }
+}
+
+async fn reply_case(idx: usize, timeout: bool, input: Result<&str, Vec<u8>>) -> String {
+    let r = futures::FutureExt::catch_unwind(AssertUnwindSafe(async {
+        match idx {
+            7 => reply_flow::<u8>(|p| HMsg::CallFirst(p, 1, "x".into()), |m| if let HMsg::CallFirst(p, ..) = m { Some(p) } else { None }, timeout, input).await,
+            8 => reply_flow::<String>(|p| HMsg::CallMid(-1, p, vec![1]), |m| if let HMsg::CallMid(_, p, _) = m { Some(p) } else { None }, timeout, input).await,
+            9 => reply_flow::<Vec<u8>>(|p| HMsg::CallLast(5, true, p), |m| if let HMsg::CallLast(_, _, p) = m { Some(p) } else { None }, timeout, input).await,
+            10 => reply_flow::<()>(HMsg::CallOnly, |m| if let HMsg::CallOnly(p) = m { Some(p) } else { None }, timeout, input).await,
+            11 => reply_flow::<u32>(|p| HMsg::CallSt { x: 1, reply: p, y: 0.5 }, |m| if let HMsg::CallSt { reply, .. } = m { Some(reply) } else { None }, timeout, input).await,
+            14 => reply_flow::<Vec<i32>>(|p| HMsg::CallMany { a: "".into(), b: vec![], c: 'c', reply: p }, |m| if let HMsg::CallMany { reply, .. } = m { Some(reply) } else { None }, timeout, input).await,
+            _ => panic!("variant {idx} is not an rpc"),
+        }
+    }))
+    .await;
+    r.unwrap_or_else(|_| "PANIC".to_string())
+}
+
+// a second derived enum: generic over its payload type
+#[derive(RactorClusterMessage)]
+#[allow(dead_code)]
+enum GMsg<T: BytesConvertable + Send + 'static> {
+    V(T),
+    #[rpc]
+    Ask(T, RpcReplyPort<T>),
+    Two { first: T, second: T },
+}
+
+fn gview<T: Conv + Send + 'static>(m: &GMsg<T>) -> (usize, Vec<V>) {
+    match m {
+        GMsg::V(a) => (0, vec![a.to_v()]),
+        GMsg::Ask(a, _) => (1, vec![a.to_v()]),
+        GMsg::Two { first, second } => (2, vec![first.to_v(), second.to_v()]),
+    }
+}
+
+fn genum_de<T: Conv + Send + 'static>(m: SerializedMessage) -> String {
+    match quiet(|| GMsg::<T>::deserialize(m)) {
+        Ok(Ok(v)) => {
+            let (i, vals) = gview(&v);
+            format!("Some {}", show_view(i, &vals))
+        }
+        Ok(Err(_)) => "None".to_string(),
+        Err(()) => "PANIC".to_string(),
+    }
+}
+
+fn genum_rt<T: Conv + Send + 'static>(idx: usize, s: &str) -> String {
+    let parts: Vec<&str> = s.split('|').collect();
+    let v: Vec<V> = parts.iter().map(|p| T::parse(p)).collect();
+    let msg = match idx {
+        0 => GMsg::<T>::V(T::from_v(&v[0])),
+        1 => GMsg::<T>::Ask(T::from_v(&v[0]), port()),
+        2 => GMsg::<T>::Two { first: T::from_v(&v[0]), second: T::from_v(&v[1]) },
+        _ => panic!("variant index"),
+    };
+    match quiet(|| msg.serialize()) {
+        Ok(Ok(s)) => format!("(Some ({}), {})", show_smsg(&s), genum_de::<T>(clone_smsg(&s))),
+        Ok(Err(_)) => "(None, None)".to_string(),
+        Err(()) => "(None, PANIC)".to_string(),
+    }
+}
+
+macro_rules! with_g {
+    ($name:expr, $T:ident => $body:expr) => {
+        match $name {
+            "u16" => { type $T = u16; $body }
+            "str" => { type $T = String; $body }
+            "vi64" => { type $T = Vec<i64>; $body }
+            other => panic!("unknown generic instance {other}"),
+        }
+    };
 }
 
 // ---------------------------------------------------------------------------------------
@@ -481,9 +767,10 @@ fn parse_ttl(s: &str) -> Option<Duration> {
 /// JobOptions with the given submit time (its fields are private: go through the wire form
 /// for the submit time, then set the ttl through the public setter)
 fn make_opts(submit: &str, ttl: &str) -> JobOptions {
-    let mut o = if submit == "now" {
-        JobOptions::new(None)
-    } else {
+    if submit == "now" {
+        return JobOptions::new(parse_ttl(ttl));
+    }
+    let mut o = {
         let s: u64 = submit.parse().expect("submit ns");
         let mut b = s.to_be_bytes().to_vec();
         b.extend_from_slice(&0u64.to_be_bytes());
@@ -538,6 +825,44 @@ fn job_rt<K: Conv + ractor::factory::JobKey>(key: &str, submit: &str, ttl: &str,
     format!("({}, ({}), {})", show_opts(orig), shown, job_de::<K>(ser))
 }
 
+/// things around the wire form of a job that the round trip relies on: PartialEq of the options
+/// (factory/worker times are not transmitted), expiry of the original and of the decoded job,
+/// Job::new, and a misbehaving inner serializer
+fn jo_misc(submit: &str, ttl: &str) -> String {
+    let o = make_opts(submit, ttl);
+    let eq_self = o.clone() == o;
+    let back = JobOptions::from_bytes(o.clone().into_bytes());
+    let eq_back = back == o;
+    let exp_orig = Job::with_options(1u64, 2u8, o).is_expired();
+    let ser = Job::with_options(1u64, 2u8, back).serialize();
+    let exp_back = match ser.and_then(<Job<u64, u8> as Message>::deserialize) {
+        Ok(j) => coq_bool(j.is_expired()).to_string(),
+        Err(_) => "DESER_FAILED".to_string(),
+    };
+    let fresh = match Job::new(9u64, 7u8).serialize().and_then(<Job<u64, u8> as Message>::deserialize) {
+        Ok(j) => j.key == 9 && j.msg == 7 && j.options.ttl().is_none() && !j.is_expired(),
+        Err(_) => false,
+    };
+    let weird = matches!(quiet(|| Job::new(1u64, Weird).serialize()), Ok(Err(_)));
+    format!(
+        "({}, {}, {}, {}, {}, {})",
+        coq_bool(eq_self),
+        coq_bool(eq_back),
+        coq_bool(exp_orig),
+        exp_back,
+        coq_bool(fresh),
+        coq_bool(weird)
+    )
+}
+
+fn jobp_de<K: Conv + ractor::factory::JobKey, T: Conv + Message>(m: SerializedMessage) -> String {
+    match quiet(|| <Job<K, T> as Message>::deserialize(m)) {
+        Ok(Ok(j)) => format!("JPOk ({}) {} ({})", show(&j.key.to_v()), show_jdec(&j.options), show(&j.msg.to_v())),
+        Ok(Err(_)) => "JPErr".to_string(),
+        Err(()) => "JPPanic".to_string(),
+    }
+}
+
 macro_rules! with_key {
     ($name:expr, $K:ident => $body:expr) => {
         match $name {
@@ -583,6 +908,34 @@ impl<K: Conv + ractor::factory::JobKey> Actor for JobActor<K> {
     async fn handle(&self, _: ActorRef<Self::Msg>, j: Self::Msg, _: &mut ()) -> Result<(), ActorProcessingErr> {
         let (i, vals) = view(&j.msg);
         self.0 .0.lock().unwrap().push(show_view(i, &vals));
+        Ok(())
+    }
+}
+
+struct PrimActor<T>(Log, std::marker::PhantomData<T>);
+impl<T: Conv + Message + Sync> Actor for PrimActor<T> {
+    type Msg = T;
+    type State = ();
+    type Arguments = ();
+    async fn pre_start(&self, _: ActorRef<Self::Msg>, _: ()) -> Result<(), ActorProcessingErr> {
+        Ok(())
+    }
+    async fn handle(&self, _: ActorRef<Self::Msg>, m: T, _: &mut ()) -> Result<(), ActorProcessingErr> {
+        self.0 .0.lock().unwrap().push(show(&m.to_v()));
+        Ok(())
+    }
+}
+
+struct PlainActor(Log);
+impl Actor for PlainActor {
+    type Msg = Plain;
+    type State = ();
+    type Arguments = ();
+    async fn pre_start(&self, _: ActorRef<Self::Msg>, _: ()) -> Result<(), ActorProcessingErr> {
+        Ok(())
+    }
+    async fn handle(&self, _: ActorRef<Self::Msg>, _: Plain, _: &mut ()) -> Result<(), ActorProcessingErr> {
+        self.0 .0.lock().unwrap().push("handled".to_string());
         Ok(())
     }
 }
@@ -699,17 +1052,63 @@ fn err_class(kind: std::io::ErrorKind, text: &str) -> String {
     }
 }
 
-async fn stream(max: u64, data: Vec<u8>, sizes: &str, mode: &str) -> String {
+async fn stream(max: u64, data: Vec<u8>, sizes: &str, mode: &str, transport: &str) -> String {
     let stats = Arc::new(Mutex::new(Stats::default()));
-    let reader = ChunkedReader {
-        chunks: split(&data, sizes),
-        idx: 0,
-        off: 0,
-        pend_between: mode == "pend",
-        pended: false,
-        stats: stats.clone(),
+    let chunks = split(&data, sizes);
+    // keeps the writing end of a socket alive until the feeder task has shut it down
+    let mut feeder: Option<tokio::task::JoinHandle<()>> = None;
+    let mut fr = if transport == "mem" {
+        let reader = ChunkedReader { chunks, idx: 0, off: 0, pend_between: mode == "pend", pended: false, stats: stats.clone() };
+        VerifFrameReader::new(Box::new(reader), max)
+    } else {
+        // a real loopback socket (optionally TLS on top): the bytes are written chunk by chunk by a
+        // second task and the write side is shut down at the end; how the chunks coalesce is up to
+        // the kernel, which is the point (the Regular / ServerTls / ClientTls read halves)
+        use tokio::io::AsyncWriteExt;
+        let Some(pair) = sock_pair(transport != "tcp").await else { return "SETUP_FAILED".to_string() };
+        let slow = mode == "pend";
+        async fn feed<W: tokio::io::AsyncWrite + Unpin>(mut w: W, chunks: Vec<Vec<u8>>, slow: bool) {
+            for c in chunks {
+                if w.write_all(&c).await.is_err() {
+                    return;
+                }
+                let _ = w.flush().await;
+                tokio::task::yield_now().await;
+                if slow {
+                    std::thread::sleep(Duration::from_micros(120));
+                    tokio::task::yield_now().await;
+                }
+            }
+            let _ = w.shutdown().await;
+        }
+        match pair {
+            Pair::Tcp(client, server, ..) => {
+                let (fr, keep) = VerifFrameReader::new_tcp(server, max);
+                feeder = Some(tokio::spawn(async move {
+                    feed(client, chunks, slow).await;
+                    drop(keep);
+                }));
+                fr
+            }
+            Pair::Tls(client, server, ..) if transport == "tls" => {
+                let (fr, keep) = VerifFrameReader::new_tls_server(server, max);
+                feeder = Some(tokio::spawn(async move {
+                    feed(client, chunks, slow).await;
+                    drop(keep);
+                }));
+                fr
+            }
+            Pair::Tls(client, server, ..) => {
+                // "tlsc": the reader sits on the dialling end
+                let (fr, keep) = VerifFrameReader::new_tls_client(client, max);
+                feeder = Some(tokio::spawn(async move {
+                    feed(server, chunks, slow).await;
+                    drop(keep);
+                }));
+                fr
+            }
+        }
     };
-    let mut fr = VerifFrameReader::new(Box::new(reader), max);
     let mut outs: Vec<String> = Vec::new();
     MAX_ALLOC.store(0, Ordering::Relaxed);
     let mut panicked = false;
@@ -732,11 +1131,16 @@ async fn stream(max: u64, data: Vec<u8>, sizes: &str, mode: &str) -> String {
         }
     }
     let peak = MAX_ALLOC.load(Ordering::Relaxed);
+    if let Some(f) = feeder {
+        f.abort();
+    }
     let st = stats.lock().unwrap();
     if panicked {
         return "PANIC".to_string();
     }
-    format!("({}, {}, {}, {})", coq_list(&outs), st.delivered, st.max_request, peak)
+    // over a socket the bytes taken from the transport cannot be counted: report what was sent
+    let delivered = if transport == "mem" { st.delivered } else { data.len() };
+    format!("({}, {}, {}, {})", coq_list(&outs), delivered, st.max_request, peak)
 }
 
 async fn sreader(max: u64, data: Vec<u8>, sizes: &str, mode: &str) -> String {
@@ -797,16 +1201,142 @@ impl ractor_cluster::NodeEventSubscription for LiveSub {
     }
 }
 
-async fn live(max: u64, how: &str, data: Vec<u8>) -> String {
+enum Pair {
+    Tcp(tokio::net::TcpStream, tokio::net::TcpStream, std::net::SocketAddr, std::net::SocketAddr),
+    Tls(
+        tokio_rustls::client::TlsStream<tokio::net::TcpStream>,
+        tokio_rustls::server::TlsStream<tokio::net::TcpStream>,
+        std::net::SocketAddr,
+        std::net::SocketAddr,
+    ),
+}
+
+/// a connected loopback socket pair (dialling end, accepting end, dialler's address, listener's
+/// address), optionally with a completed TLS handshake on top
+async fn sock_pair(tls: bool) -> Option<Pair> {
+    let listener = tokio::net::TcpListener::bind("127.0.0.1:0").await.ok()?;
+    let addr = listener.local_addr().ok()?;
+    let client = tokio::net::TcpStream::connect(addr).await.ok()?;
+    let (server_side, peer) = listener.accept().await.ok()?;
+    let _ = client.set_nodelay(true);
+    let _ = server_side.set_nodelay(true);
+    if tls {
+        let (acceptor, connector, domain) = tls_setup()?;
+        let (acc, con) = tokio::join!(acceptor.accept(server_side), connector.connect(domain, client));
+        Some(Pair::Tls(con.ok()?, acc.ok()?, peer, addr))
+    } else {
+        Some(Pair::Tcp(client, server_side, peer, addr))
+    }
+}
+
+/// an external transport without labels (the trait's defaults)
+struct Bare(tokio::io::DuplexStream);
+impl ractor_cluster::ClusterBidiStream for Bare {
+    fn split(self: Box<Self>) -> (ractor_cluster::BoxRead, ractor_cluster::BoxWrite) {
+        let (r, w) = tokio::io::split(self.0);
+        (Box::new(r), Box::new(w))
+    }
+}
+
+/// an external transport whose write half fails (on write, or only on flush)
+struct Broken {
+    stream: tokio::io::DuplexStream,
+    on_flush: bool,
+}
+struct BrokenWriter(bool);
+impl tokio::io::AsyncWrite for BrokenWriter {
+    fn poll_write(self: Pin<&mut Self>, _: &mut Context<'_>, buf: &[u8]) -> Poll<std::io::Result<usize>> {
+        if self.0 {
+            Poll::Ready(Ok(buf.len()))
+        } else {
+            Poll::Ready(Err(std::io::Error::new(std::io::ErrorKind::BrokenPipe, "injected write failure")))
+        }
+    }
+    fn poll_flush(self: Pin<&mut Self>, _: &mut Context<'_>) -> Poll<std::io::Result<()>> {
+        Poll::Ready(Err(std::io::Error::new(std::io::ErrorKind::BrokenPipe, "injected flush failure")))
+    }
+    fn poll_shutdown(self: Pin<&mut Self>, _: &mut Context<'_>) -> Poll<std::io::Result<()>> {
+        Poll::Ready(Ok(()))
+    }
+}
+impl ractor_cluster::ClusterBidiStream for Broken {
+    fn split(self: Box<Self>) -> (ractor_cluster::BoxRead, ractor_cluster::BoxWrite) {
+        let (r, _w) = tokio::io::split(self.stream);
+        (Box::new(r), Box::new(BrokenWriter(self.on_flush)))
+    }
+    fn peer_label(&self) -> Option<String> {
+        Some("raw1".to_string())
+    }
+}
+
+/// TLS endpoints from the test CA shipped with the repository (valid until 4096)
+fn tls_setup() -> Option<(tokio_rustls::TlsAcceptor, tokio_rustls::TlsConnector, tokio_rustls::rustls::pki_types::ServerName<'static>)> {
+    use tokio_rustls::rustls::pki_types::pem::PemObject;
+    use tokio_rustls::rustls::pki_types::{CertificateDer, PrivateKeyDer, ServerName};
+    let dir = "/repo/ractor_cluster_integration_tests/test-ca/rsa-2048";
+    let certs: Vec<CertificateDer<'static>> =
+        CertificateDer::pem_file_iter(format!("{dir}/end.fullchain")).ok()?.collect::<Result<Vec<_>, _>>().ok()?;
+    let key = PrivateKeyDer::from_pem_file(format!("{dir}/end.key")).ok()?;
+    let server = tokio_rustls::rustls::ServerConfig::builder().with_no_client_auth().with_single_cert(certs, key).ok()?;
+    let mut roots = tokio_rustls::rustls::RootCertStore::empty();
+    for c in CertificateDer::pem_file_iter(format!("{dir}/ca.cert")).ok()? {
+        roots.add(c.ok()?).ok()?;
+    }
+    let client = tokio_rustls::rustls::ClientConfig::builder().with_root_certificates(roots).with_no_client_auth();
+    Some((
+        tokio_rustls::TlsAcceptor::from(Arc::new(server)),
+        tokio_rustls::TlsConnector::from(Arc::new(client)),
+        ServerName::try_from("testserver.com").ok()?,
+    ))
+}
+
+trait RW: AsyncRead + tokio::io::AsyncWrite + Unpin + Send {}
+impl<T: AsyncRead + tokio::io::AsyncWrite + Unpin + Send> RW for T {}
+
+/// let the runtime (and, for sockets, the kernel) make progress without advancing the paused
+/// clock by more than a nanosecond
+async fn pump(real: bool) {
+    settle().await;
+    if real {
+        std::thread::sleep(Duration::from_micros(150));
+        tokio::task::yield_now().await;
+    }
+}
+
+/// transport: mem (in-memory duplex, external-transport path) | tcp (a real loopback socket handed
+/// over as NetworkStream::Raw, the listener's path). role: server (the node accepted the
+/// connection and waits for the peer) | client (the node dialled: it speaks first).
+/// how: hold | close (shut down after writing) | dropfirst (the peer is gone before the node
+/// even starts the session).
+async fn live(max: u64, how: &str, data: Vec<u8>, transport: &str, role: &str, sizes: &str) -> String {
     use ractor_cluster::{NodeServer, NodeServerMessage, NodeSessionMessage};
-    use tokio::io::AsyncWriteExt;
+    use tokio::io::{AsyncReadExt, AsyncWriteExt};
+    let tls = transport == "tls";
+    let tcp = transport == "tcp" || tls;
+    let fail = "(false, false, false, true, true, [])".to_string();
+    // sockets first: nothing that owns a timer exists yet
+    let mut tcp_pair = None;
+    let mut tls_pair = None;
+    let mut link_pair = None;
+    if tcp {
+        match sock_pair(tls).await {
+            Some(Pair::Tcp(c, s, peer, local)) => tcp_pair = Some((c, s, peer, local)),
+            Some(Pair::Tls(c, s, peer, local)) => tls_pair = Some((c, s, peer, local)),
+            None => return fail,
+        }
+        // the authenticated link between the two nodes runs over the same kind of transport
+        link_pair = sock_pair(tls).await;
+        if link_pair.is_none() {
+            return fail;
+        }
+    }
     let mk = |name: &str| {
         NodeServer::new(0, "cookie".to_string(), name.to_string(), "host".to_string(), None, None)
             .with_max_inbound_frame_size(max.max(4096))
     };
     // (the limit applies to every session of the node; it is kept >= 4096 so the handshake fits)
     let (Ok((a, ah)), Ok((b, bh))) = (Actor::spawn(None, mk("a"), ()).await, Actor::spawn(None, mk("b"), ()).await) else {
-        return "(false, false, false, true, true)".to_string();
+        return fail;
     };
     let log = Log::default();
     a.cast(NodeServerMessage::SubscribeToEvents { id: "h".to_string(), subscription: Box::new(LiveSub(log.clone())) })
@@ -815,54 +1345,166 @@ async fn live(max: u64, how: &str, data: Vec<u8>) -> String {
     let _ = ractor::call_t!(b, NodeServerMessage::GetSessions, 1_000);
     let seen = |what: &str| log.0.lock().unwrap().iter().any(|e| e == what);
     // authenticated link a <-> b
-    let (la, lb) = tokio::io::duplex(64 * 1024);
-    a.cast(NodeServerMessage::ConnectionOpenedExternal { stream: Box::new(Duplex { stream: la, label: "link".into() }), is_server: true })
-        .expect("open");
-    b.cast(NodeServerMessage::ConnectionOpenedExternal { stream: Box::new(Duplex { stream: lb, label: "link-b".into() }), is_server: false })
-        .expect("open");
-    for _ in 0..2000 {
-        if seen("ready link") {
+    let link_label;
+    match link_pair {
+        Some(Pair::Tcp(c, sv, peer, local)) => {
+            link_label = peer.to_string();
+            a.cast(NodeServerMessage::ConnectionOpened {
+                stream: Box::new(ractor_cluster::NetworkStream::Raw { peer_addr: peer, local_addr: local, stream: sv }),
+                is_server: true,
+            })
+            .expect("open");
+            b.cast(NodeServerMessage::ConnectionOpened {
+                stream: Box::new(ractor_cluster::NetworkStream::Raw { peer_addr: local, local_addr: peer, stream: c }),
+                is_server: false,
+            })
+            .expect("open");
+        }
+        Some(Pair::Tls(c, sv, peer, local)) => {
+            link_label = peer.to_string();
+            a.cast(NodeServerMessage::ConnectionOpened {
+                stream: Box::new(ractor_cluster::NetworkStream::TlsServer { peer_addr: peer, local_addr: local, stream: sv }),
+                is_server: true,
+            })
+            .expect("open");
+            b.cast(NodeServerMessage::ConnectionOpened {
+                stream: Box::new(ractor_cluster::NetworkStream::TlsClient { peer_addr: local, local_addr: peer, stream: c }),
+                is_server: false,
+            })
+            .expect("open");
+        }
+        None => {
+            link_label = "link".to_string();
+            let (la, lb) = tokio::io::duplex(64 * 1024);
+            a.cast(NodeServerMessage::ConnectionOpenedExternal { stream: Box::new(Duplex { stream: la, label: "link".into() }), is_server: true })
+                .expect("open");
+            b.cast(NodeServerMessage::ConnectionOpenedExternal { stream: Box::new(Duplex { stream: lb, label: "link-b".into() }), is_server: false })
+                .expect("open");
+        }
+    }
+    let ready_link = format!("ready {link_label}");
+    let link_deadline = std::time::Instant::now() + Duration::from_secs(20);
+    for i in 0.. {
+        if seen(&ready_link) || (!tcp && i > 2000) || std::time::Instant::now() > link_deadline {
             break;
         }
-        settle().await;
+        pump(tcp).await;
     }
-    let link_ready_before = seen("ready link");
-    // two raw inbound sessions
-    let (r1a, mut r1) = tokio::io::duplex(64 * 1024);
+    let link_ready_before = seen(&ready_link);
+    // two raw sessions: raw1 is the one that gets the bytes, raw2 stays idle
+    let is_server = role != "client";
     let (r2a, r2) = tokio::io::duplex(64 * 1024);
-    a.cast(NodeServerMessage::ConnectionOpenedExternal { stream: Box::new(Duplex { stream: r1a, label: "raw1".into() }), is_server: true })
+    let label;
+    let mut r1: Option<Box<dyn RW>>;
+    let open1;
+    if let Some((con, acc, peer, local)) = tls_pair {
+        label = peer.to_string();
+        if is_server {
+            r1 = Some(Box::new(con));
+            open1 = NodeServerMessage::ConnectionOpened {
+                stream: Box::new(ractor_cluster::NetworkStream::TlsServer { peer_addr: peer, local_addr: local, stream: acc }),
+                is_server,
+            };
+        } else {
+            r1 = Some(Box::new(acc));
+            open1 = NodeServerMessage::ConnectionOpened {
+                stream: Box::new(ractor_cluster::NetworkStream::TlsClient { peer_addr: peer, local_addr: local, stream: con }),
+                is_server,
+            };
+        }
+    } else {
+    match tcp_pair {
+        Some((client, server_side, peer, local)) => {
+            label = peer.to_string();
+            r1 = Some(Box::new(client));
+            open1 = NodeServerMessage::ConnectionOpened {
+                stream: Box::new(ractor_cluster::NetworkStream::Raw { peer_addr: peer, local_addr: local, stream: server_side }),
+                is_server,
+            };
+        }
+        None => {
+            let (r1a, mine) = tokio::io::duplex(64 * 1024);
+            label = "raw1".to_string();
+            r1 = Some(Box::new(mine));
+            open1 = if how == "writefail" || how == "flushfail" {
+                // a transport whose write half breaks: the batched writer must stop that session
+                NodeServerMessage::ConnectionOpenedExternal { stream: Box::new(Broken { stream: r1a, on_flush: how == "flushfail" }), is_server }
+            } else {
+                NodeServerMessage::ConnectionOpenedExternal { stream: Box::new(Duplex { stream: r1a, label: "raw1".into() }), is_server }
+            };
+        }
+    }
+    }
+    if how == "dropfirst" {
+        r1 = None;
+    }
+    a.cast(open1).expect("open");
+    a.cast(NodeServerMessage::ConnectionOpenedExternal { stream: Box::new(Bare(r2a)), is_server: true })
         .expect("open");
-    a.cast(NodeServerMessage::ConnectionOpenedExternal { stream: Box::new(Duplex { stream: r2a, label: "raw2".into() }), is_server: true })
-        .expect("open");
-    for _ in 0..200 {
-        if seen("opened raw1") && seen("opened raw2") {
+    let opened = format!("opened {label}");
+    let disconnected = format!("disconnected {label}");
+    let deadline = std::time::Instant::now() + Duration::from_secs(20);
+    for i in 0.. {
+        if (seen(&opened) && seen("opened external")) || (!tcp && i > 200) || std::time::Instant::now() > deadline {
             break;
         }
-        settle().await;
+        pump(tcp).await;
     }
-    let _ = r1.write_all(&data).await;
-    let _ = r1.flush().await;
-    if how == "close" {
-        let _ = r1.shutdown().await;
+    // what the node wrote on its own (a dialling node speaks first)
+    let mut captured: Vec<u8> = Vec::new();
+    if let Some(conn) = r1.as_mut() {
+        let mut quiet_rounds = 0;
+        let mut buf = [0u8; 4096];
+        while quiet_rounds < if tcp { 40 } else { 5 } && captured.len() < 1 << 16 {
+            pump(tcp).await;
+            match futures::FutureExt::now_or_never(conn.read(&mut buf)) {
+                Some(Ok(n)) if n > 0 => {
+                    captured.extend_from_slice(&buf[..n]);
+                    quiet_rounds = 0;
+                }
+                Some(_) => break,
+                None => quiet_rounds += 1,
+            }
+            if is_server {
+                break; // an accepting node waits for the peer
+            }
+        }
+        for chunk in split(&data, sizes) {
+            if conn.write_all(&chunk).await.is_err() {
+                break;
+            }
+            let _ = conn.flush().await;
+            for _ in 0..3 {
+                pump(tcp).await;
+            }
+        }
+        if how == "close" {
+            let _ = conn.shutdown().await;
+        }
     }
-    for _ in 0..400 {
-        if seen("disconnected raw1") {
+    let deadline = std::time::Instant::now() + Duration::from_secs(20);
+    for i in 0.. {
+        if seen(&disconnected) || (!tcp && i > 400) || (tcp && how == "hold" && data.is_empty() && i > 200) || std::time::Instant::now() > deadline {
             break;
         }
-        settle().await;
+        // with a socket and nothing that must close the session there is nothing to wait for
+        if tcp && i > 4000 && how == "hold" {
+            break;
+        }
+        pump(tcp).await;
     }
     for _ in 0..50 {
-        settle().await;
+        pump(tcp).await;
     }
-    let raw1_closed = seen("disconnected raw1");
-    let others_closed = seen("disconnected raw2") || seen("disconnected link");
+    let raw1_closed = seen(&disconnected);
+    let others_closed = seen("disconnected external") || seen(&format!("disconnected {link_label}"));
     // the node server still answers, still lists the authenticated link, and that session is ready
     let sessions = ractor::call_t!(a, NodeServerMessage::GetSessions, 1_000);
     let (server_ok, link_ready) = match sessions {
         Ok(m) => {
             let mut ready = false;
             for s in m.values() {
-                if s.peer_addr == "link" {
+                if s.peer_addr == link_label {
                     ready = ractor::call_t!(s.actor, NodeSessionMessage::GetReadyState, 1_000).unwrap_or(false);
                 }
             }
@@ -877,12 +1519,13 @@ async fn live(max: u64, how: &str, data: Vec<u8>) -> String {
     let _ = ah.await;
     let _ = bh.await;
     format!(
-        "({}, {}, {}, {}, {})",
+        "({}, {}, {}, {}, {}, {})",
         coq_bool(link_ready_before),
         coq_bool(raw1_closed),
         coq_bool(others_closed),
         coq_bool(server_ok),
-        coq_bool(link_ready)
+        coq_bool(link_ready),
+        bytes(&captured)
     )
 }
 
@@ -894,6 +1537,28 @@ async fn one(line: &str) -> String {
         ("bc", "dec") => with_ty!(w[2], T => bc_dec::<T>(unhex(w[3]))),
         ("bc", "rt") => with_ty!(w[2], T => bc_rt::<T>(w[3])),
         ("enum", "de") => enum_de(smsg(w[2], w[3], w[4], w[5])),
+        ("enum", "box") => {
+            let idx: usize = w[2].parse().expect("idx");
+            enum_box_rt(idx, &parse_fields(idx, w.get(3).copied().unwrap_or("-")))
+        }
+        ("genum", "de") => with_g!(w[2], T => genum_de::<T>(smsg(w[3], w[4], w[5], w[6]))),
+        ("genum", "rt") => with_g!(w[2], T => genum_rt::<T>(w[3].parse().expect("idx"), w[4])),
+        ("msg", "de") => with_prim!(w[2], T => prim_de::<T>(smsg(w[3], w[4], w[5], w[6]))),
+        ("msg", "rt") => with_prim!(w[2], T => prim_rt::<T>(w[3])),
+        ("plain", _) => plain_probe(smsg(w[1], w[2], w[3], w[4])),
+        ("reply", "rt") => reply_case(w[2].parse().expect("idx"), w[3] == "timeout", Ok(w[4])).await,
+        ("reply", "de") => reply_case(w[2].parse().expect("idx"), w[3] == "timeout", Err(unhex(w[4]))).await,
+        ("jo", "misc") => jo_misc(w[2], w[3]),
+        ("jobp", "de") => with_key!(w[2], K => with_prim!(w[3], T => jobp_de::<K, T>(smsg(w[4], w[5], w[6], w[7])))),
+        ("actor", k) if k.starts_with("prim:") => {
+            let log = Log::default();
+            let msgs = parse_msgs(w.get(2).copied().unwrap_or(""));
+            with_prim!(&k[5..], T => run_actor(PrimActor::<T>(log.clone(), std::marker::PhantomData), log, msgs).await)
+        }
+        ("actor", "plain") => {
+            let log = Log::default();
+            run_actor(PlainActor(log.clone()), log, parse_msgs(w.get(2).copied().unwrap_or(""))).await
+        }
         ("enum", "rt") => {
             let idx: usize = w[2].parse().expect("idx");
             let vals = parse_fields(idx, w.get(3).copied().unwrap_or("-"));
@@ -938,8 +1603,27 @@ async fn one(line: &str) -> String {
                 Err(t) => format!("(Some {})", &err_class(std::io::ErrorKind::InvalidData, &t)[5..]),
             }
         }
-        ("stream", _) => stream(w[1].parse().expect("max"), unhex(w[2]), w[3], w.get(4).copied().unwrap_or("ready")).await,
-        ("live", _) => live(w[1].parse().expect("max"), w[2], unhex(w.get(3).copied().unwrap_or("-"))).await,
+        ("stream", _) => {
+            stream(
+                w[1].parse().expect("max"),
+                unhex(w[2]),
+                w[3],
+                w.get(4).copied().unwrap_or("ready"),
+                w.get(5).copied().unwrap_or("mem"),
+            )
+            .await
+        }
+        ("live", _) => {
+            live(
+                w[1].parse().expect("max"),
+                w[2],
+                unhex(w.get(3).copied().unwrap_or("-")),
+                w.get(4).copied().unwrap_or("mem"),
+                w.get(5).copied().unwrap_or("server"),
+                w.get(6).copied().unwrap_or("-"),
+            )
+            .await
+        }
         ("sreader", _) => sreader(w[1].parse().expect("max"), unhex(w[2]), w[3], w.get(4).copied().unwrap_or("ready")).await,
         other => panic!("unknown case {other:?}"),
     }
